@@ -358,17 +358,28 @@ def table_diffs(m, d, base, var, requested, out_cur):
     if len(bl) != len(vl):
         return [], 0
     norm = lambda t: t.replace(' ', '')
-    bad, changed, hdr, title = [], 0, None, ''
+    bad, changed, hdr, title, relabelled = [], 0, None, '', set()
     for i, (x, y) in enumerate(zip(bl, vl)):
         if '*' in x and re.search(r'[A-Z]{4}', x):
             title = x.strip('* ').strip()
         if is_unit_header(x) and is_unit_header(y):
-            hdr = i
+            hdr, relabelled = i, set()
             if x != y:
                 changed += 1
-                for a, b in zip(PAREN.findall(x), PAREN.findall(y)):
-                    if a != b and norm(b) != norm(requested):
-                        bad.append(('table-header', title, x.strip(), y.strip()))
+                for k, (a, b) in enumerate(zip(PAREN.findall(x), PAREN.findall(y))):
+                    if a != b:
+                        relabelled.add(k)
+                        if norm(b) != norm(requested):
+                            bad.append(('table-header', title, x.strip(), y.strip()))
+            continue
+        if hdr is not None and x == y and relabelled and is_data_row(m, x):
+            cols = columns(m, bl[hdr], x)          # a header that changed over a column that did not
+            nums = re.findall(m.NUM, x)
+            for j, h in enumerate(cols):
+                if h in relabelled and F(nums[j].replace(',', '')) != 0:
+                    bad.append(('header-only', f'{title}: column ({PAREN.findall(vl[hdr])[h]})', x.strip(), vl[hdr].strip()))
+                    relabelled = set()
+                    break
             continue
         if x == y or not (is_data_row(m, x) and is_data_row(m, y)) or hdr is None:
             continue
